@@ -713,3 +713,87 @@ def c10_replay(prop, case):
             if label not in getattr(model, "DETERMINISTIC_CONFIGS", ()) and distinct < 2:
                 ctx.fail("generator.constant", env, "random generator returned the same instance for every key", "", case)
     return list(ctx.failures.values())
+
+
+# ------------------------------------------------------------------------- bounded exhaustive exploration (BFS)
+# Small deterministic environments: every state reachable within `depth` steps of a reset is visited (all actions
+# of the action space from every state, one vmapped step per state) and the property's monitor is evaluated on every
+# transition.  States are identified up to the PRNG key and the step counter.
+BFS_ENVS = {
+    "Sokoban": {"quick": [("simplet120", 9), ("toyt120", 7)], "thorough": [("simplet120", 12), ("toyt120", 10), ("randomt120", 8)]},
+    "Maze": {"quick": [("toy", 8), ("r5c5t7", 6)], "thorough": [("toy", 14), ("r4c7tNone", 12), ("r5c5t7", 7)]},
+    "Cleaner": {"quick": [("r5c5a1tNone", 8)], "thorough": [("r5c5a1tNone", 12), ("r3c7a1t7", 7)]},
+}
+
+
+def _bfs_state_key(s):
+    import jax
+
+    parts = []
+    if hasattr(s, "__dataclass_fields__"):
+        parts = [getattr(s, k) for k in s.__dataclass_fields__ if k not in ("key", "step_count")]
+    else:
+        parts = [s]
+    return digest([np.asarray(x) for x in jax.tree_util.tree_leaves(parts)])
+
+
+def bfs_work_items(prop, method, tier, flt):
+    items = []
+    supported = set(base.envs_supporting(method))
+    for env, cfg in BFS_ENVS.items():
+        if env not in supported or (flt and flt.get("env") and env not in flt["env"]):
+            continue
+        for entry, depth in cfg[tier]:
+            if flt and flt.get("entry") and entry not in flt["entry"]:
+                continue
+            items.append({"kind": "bfs", "env": env, "entry": entry, "depth": depth, "cost": 3})
+    return items
+
+
+def bfs_run_item(prop, item, seed, mon_cls, method, state_cap=6000):
+    ctx = Ctx(prop, item)
+    env, entry, depth = item["env"], item["entry"], item["depth"]
+    with ctx.guard(env, {"env": env, "entry": entry, "stage": "construct"}):
+        b = envs.bundle(env, entry)
+        model = base.get_model(b)
+        mon = mon_cls(b, ctx, model)
+        if hasattr(mon, "every"):
+            mon.every = 1
+        n_act = b.num_flat_actions()
+        all_actions = np.stack([b.action_from_flat(i) for i in range(n_act)], 0)
+        for kw in ((seed % 1000, 17), (0, 0)):
+            key = envs.make_key(kw)
+            s0, ts0 = episodes.host(b.reset(key))
+            rec0 = episodes.Recorder(ctx, b, kw)
+            mon.on_reset(rec0, s0, ts0)
+            seen = {_bfs_state_key(s0)}
+            frontier = [(s0, ts0, [])]
+            for d in range(depth):
+                nxt = []
+                for s, ts, path in frontier:
+                    s2b, ts2b = episodes.host(b.step_all(s, all_actions))
+                    for i in range(n_act):
+                        s2, ts2 = tslice(s2b, i), tslice(ts2b, i)
+                        rec = episodes.Recorder(ctx, b, kw)
+                        rec.actions = [np.asarray(x) for x in path] + [all_actions[i]]
+                        k2 = _bfs_state_key(s2)
+                        new = k2 not in seen
+                        ctx.count("bfs_transitions")
+                        if isinstance(mon, C05Mon):
+                            if new and int(ts2.step_type) != episodes.LAST:
+                                mon.tick = 0
+                                mon.judge(rec, s2, ts2, d + 1)
+                        else:
+                            mon.on_step(rec, d, s, ts, all_actions[i], s2, ts2, False)
+                        if new:
+                            seen.add(k2)
+                            ctx.count("bfs_states")
+                            if int(ts2.step_type) != episodes.LAST and len(seen) < state_cap:
+                                nxt.append((s2, ts2, path + [all_actions[i]]))
+                frontier = nxt
+                if not frontier:
+                    break
+            ctx.exhaustive[f"bfs_{env}_{entry}_depth{depth}_key{kw[0]}_{kw[1]}"] = len(seen) < state_cap
+            if len(ctx.samples) < 2:
+                ctx.sample({"env": env, "entry": entry, "bfs_depth": depth, "key": list(kw), "states": len(seen)})
+    return ctx.result()
